@@ -154,6 +154,11 @@ def _map_dtype(dt):
 class SymArray(_np.ndarray):
     """object ndarray whose .astype(float/int) keeps symbolic scalars (numpy's own astype would call float() on them)"""
 
+    def round(self, decimals=0, out=None):
+        if self.dtype != object:
+            return _np.ndarray.round(self.view(_np.ndarray), decimals)
+        return _symview(_around(self, decimals))
+
     def astype(self, dtype, *a, **k):
         if self.dtype != object:
             return _np.ndarray.astype(self.view(_np.ndarray), dtype, *a, **k)
@@ -356,7 +361,7 @@ def _elementwise(name, fn_sym, out_bool=False):
             else:
                 r = fn_conc(v)
                 flat_out[i] = bool(r) if out_bool else (builtins.float(r) if isinstance(r, _np.floating) else r)
-        return flat_out.reshape(x0.shape)
+        return _symview(flat_out.reshape(x0.shape))
     g.__name__ = name
     return g
 
